@@ -243,6 +243,8 @@ func init() {
 		},
 		"math.Copysign": func(fr *frame, a []value) value { return math.Copysign(a[0].(float64), a[1].(float64)) },
 
+		"encoding/binary.Write": extBinaryWrite,
+
 		// ---- sort ----
 		"sort.Slice":       extSortSlice,
 		"sort.SliceStable": extSortSlice,
@@ -1171,3 +1173,52 @@ func extErrorsAs(fr *frame, a []value) value {
 var _ = sort.Ints
 var _ = time.Now
 var _ unsafe.Pointer
+
+
+// extBinaryWrite models encoding/binary.Write for scalar data (including
+// named integer types, which the real implementation handles by reflection).
+func extBinaryWrite(fr *frame, a []value) value {
+	ps := fr.i.ps
+	w := a[0].(iface)
+	order := a[1].(iface)
+	data := a[2].(iface)
+	if data.t == nil {
+		panic(engineError("binary.Write(nil)"))
+	}
+	v := data.v
+	if p, ok := data.t.Underlying().(*types.Pointer); ok {
+		v = load(p.Elem(), v.(*value))
+	}
+	little := strings.Contains(order.t.String(), "littleEndian")
+	var bytesOut []value
+	switch x := v.(type) {
+	case bool:
+		if x {
+			bytesOut = []value{uint8(1)}
+		} else {
+			bytesOut = []value{uint8(0)}
+		}
+	default:
+		k, ok := valueKind(v)
+		if !ok || !isIntKind(k) {
+			panic(engineError(fmt.Sprintf("binary.Write of unsupported data type %v", data.t)))
+		}
+		t := ps.lift(v)
+		n := kindWidth(k) / 8
+		for b := 0; b < n; b++ {
+			bt := ps.ts.Extract(t, 8*b+7, 8*b)
+			bytesOut = append(bytesOut, mk(bt, types.Uint8))
+		}
+		if !little {
+			for l, r := 0, len(bytesOut)-1; l < r; l, r = l+1, r-1 {
+				bytesOut[l], bytesOut[r] = bytesOut[r], bytesOut[l]
+			}
+		}
+	}
+	wr := fr.i.methodOf(w.t, "Write")
+	if wr == nil {
+		panic(engineError("binary.Write: writer has no Write method"))
+	}
+	res := call(fr.i, fr, token.NoPos, wr, []value{w.v, bytesOut}).(tuple)
+	return res[1]
+}
